@@ -34,6 +34,17 @@ def hx(b):
     return bytes(b).hex() if len(b) else "-"
 
 
+CODEPAGES = [1200, 1200, 1252, 1252, 1251, 1250, 932, 936, 949, 950, 874, 65001, 10000, 1201, 437, 0, 54321, 65535]
+
+
+def codepage_body(rng):
+    import struct
+    b = struct.pack("<H", rng.choice(CODEPAGES))
+    if rng.random() < 0.05:
+        b += bytes(rng.getrandbits(8) for _ in range(rng.choice([1, 2, 6])))
+    return b
+
+
 def units_of(s):
     b = s.encode("utf-16-le")
     return [b[i] | (b[i + 1] << 8) for i in range(0, len(b), 2)]
@@ -109,6 +120,16 @@ def gen_tail(rng, c02, tag):
     if rng.random() < 0.12:                             # a stream outside the mini stream; globals longer than
         for _ in range(rng.choice([1, 1, 9, 12])):      # 64 KiB: lbPlyPos needs its upper half
             gi[rng.randrange(3)].append("J %d %s" % (rng.choice(JUNK_TYPES), bytes(rng.getrandbits(8) for _ in range(8000)).hex()))
+    # the CodePage record (0x0042): behind the BOF where every producer writes it, of any value
+    # (Excel 1200, JExcelApi 1252, localised writers, values unknown to the decoder table); sometimes
+    # absent, sometimes somewhere else among the globals, sometimes twice.  BIFF8 text never goes
+    # through it (audit-2 finding XLS-1): sheet names and strings of every packing must read the same
+    r = rng.random()
+    if r < 0.75:
+        gi[0].insert(rng.choice([0, 0, min(1, len(gi[0]))]), "J 66 %s" % codepage_body(rng).hex())
+    if rng.random() < 0.1:
+        k = rng.randrange(4)
+        gi[k].insert(rng.randrange(len(gi[k]) + 1), "J 66 %s" % codepage_body(rng).hex())
     omit = (not env["d1904"]) and rng.random() < 0.5
     # shared strings
     strs = [units_of(s) for s in env["strings"]]
@@ -343,6 +364,12 @@ def run_whole(ctx, n_files=None, tag="w"):
             continue
         ok += 1
         ctx.count("whole:files")
+        ncp = sum(1 for g in c["tail"][5:9] for it in g.split(";") if it.startswith("J 66 "))
+        ctx.count("whole:codepage-records=%d" % ncp)
+        for g in c["tail"][5:9]:
+            for it in g.split(";"):
+                if it.startswith("J 66 "):
+                    ctx.count("whole:codepage=%d" % int.from_bytes(bytes.fromhex(it.split(" ")[2])[:2], "little"))
         ctx.count("whole:sheets", len(d["sheets"]))
         ctx.count("whole:container:%s:%d" % ("book" if c["book"] else "workbook", c["ss"]))
         ctx.count("whole:stream:%s" % ("over-64KiB" if c["stream_len"] > 65536 else "mini" if c["stream_len"] < 4096 else "regular"))
@@ -358,4 +385,70 @@ def run_whole(ctx, n_files=None, tag="w"):
         os.rmdir(tmp)                                   # files of failing cases are kept for replay
     except OSError:
         pass
+    if n_files is None:
+        run_whole_fixtures(ctx)
     return ok
+
+
+# tests/sheet_name_parsing.xls: BIFF8 written by JExcelApi with CodePage 1252 (audit-2 finding XLS-1)
+FIXTURE_PINS = {
+    "sheet_name_parsing.xls": ("%s:v:ws" % "Sheet1".encode().hex(), "",
+                               ["R[0,0,0,6|" + ",".join("S" + t.encode("utf-8").hex() for t in
+                                ["Titel", "Orginaltitel", "\u00c5r", "Regiss\u00f6r", "Ditt betyg", "Datum", "IMDB#"]) + "]"]),
+}
+
+
+def why_unmodelled(data):
+    import pwgen, struct
+    why = []
+    try:
+        r = pwgen.cfb_dir_chain(data)
+        if r is not None and "_VBA_PROJECT_CUR".encode("utf-16-le") in r[1]:
+            why.append("_VBA_PROJECT_CUR storage: the VBA project is read first, C18's domain")
+        st = pwgen.cfb_stream(data, "Workbook") or pwgen.cfb_stream(data, "Book")
+        if st is not None and len(st) >= 6 and struct.unpack("<H", st[:2])[0] == 0x0809 and struct.unpack("<H", st[4:6])[0] != 0x0600:
+            why.append("BOF of BIFF version 0x%04x" % struct.unpack("<H", st[4:6])[0])
+    except Exception:
+        pass
+    return "; ".join(why) or "?"
+
+
+def run_whole_fixtures(ctx):
+    """every .xls / .xla fixture of the repository through Xls::new + sheets_metadata + defined_names
+    + worksheet_range of every sheet, and through the whole-file model XlsFile.xls_open_model on the
+    bytes of the file.  Corpus rule (audit 2): a fixture on which a component model answers
+    'unmodelled' (a BIFF5 BOF; a _VBA_PROJECT_CUR storage) is listed by name in the evidence."""
+    from props import c02
+    impl_lines, model_lines, info = [], [], {}
+    for ext, path in vlib.fixtures({"xls", "xla"}):
+        name = os.path.basename(path)
+        cid = "fx_" + name.replace(".", "_").replace(" ", "_")
+        data = open(path, "rb").read()
+        # the sheet names, from the reader itself (the calls need them)
+        a = ctx.run_impl(["%s\topen\txls\t%s\tsheets" % (cid, path)]).get(cid) or ""
+        names = [] if a.startswith(("openerr", "panic")) or a == "" else [x for x in a.split(",") if x != ""]
+        calls = ["meta", "names"] + ["range " + n for n in names]
+        impl_lines.append("%s\topen\txls\t%s\t%s" % (cid, path, ";".join(calls)))
+        model_lines.append("%s\txlsfile\topen\t%s\t%d" % (cid, data.hex(), 4096))
+        info[cid] = name
+    impl = ctx.run_impl(impl_lines)
+    model = ctx.run_model(model_lines)
+    for cid, name in info.items():
+        i, m = impl.get(cid), model.get(cid)
+        ctx.traces += 1
+        if m == "unmodelled":
+            vlib.fixture_report(ctx, name, "unmodelled", why_unmodelled(open(os.path.join(vlib.FIXTURE_DIR, name), "rb").read()))
+        elif same_open(c02, i, m):
+            vlib.fixture_report(ctx, name, "agree", (i or "")[:12])
+            ctx.nontrivial(cid + (i or ""))
+        else:
+            vlib.fixture_report(ctx, name, "DISAGREE")
+            ctx.disagreements.append({"function": "whole:xls_open_model(repository fixture)", "case": "tests/" + name,
+                                      "impl": (i or "")[:600], "model": (m or "")[:600]})
+        if name in FIXTURE_PINS:
+            p = parse_open(i)
+            want = FIXTURE_PINS[name]
+            if not isinstance(p, tuple) or (p[0], p[1], list(p[2])) != (want[0], want[1], want[2]):
+                ctx.violations.append({"case": "repository fixture tests/%s" % name, "expected": ";;".join([want[0], want[1]] + want[2]),
+                                       "actual": (i or "")[:600], "model": (m or "")[:600],
+                                       "what": "whole file: BIFF8 workbook with CodePage 1252 (audit-2 XLS-1): sheet names and cell strings must read as stored"})
